@@ -18,7 +18,7 @@
                        lexeme is followed by text its C admits
      expect items ln   the tokens of the lexemes, each on line ln + (number of LF before it) *)
 From P2 Require Import Base.Prelude Lex.Token Lex.Tok Lex.TokProofs.
-From P2 Require Syn.Ast Syn.Parse Syn.TextToAst Syn.Lower Sem.Syntax Sem.Ref Sem.FromText Lex.TextProofs.
+From P2 Require Syn.Ast Syn.Parse Syn.ParsePos Syn.ParsePosProofs Syn.TextErrLine Syn.TextToAst Syn.Lower Sem.Syntax Sem.Ref Sem.FromText Lex.TextProofs.
 Local Open Scope N_scope.
 
 (* ---- C04, tokenizer half: for every rune string and configuration the scanner terminates within
@@ -198,10 +198,83 @@ Theorem C15_quoted_ident_denotes_content : forall cm known fuel c v, ~ In 0 c ->
     (P2.Sem.Syntax.ALet c (P2.Sem.Syntax.AIdent [97]) (P2.Sem.Syntax.AIdent c)) = P2.Sem.Syntax.Ok v.
 Proof. exact P2.Lex.TextProofs.quoted_ident_denotes_lemma. Qed.
 
-(* Error lines: the parser model reports errors without position (Syn/Parse.v: PErr carries neither the offending
-   token nor its index), so "the line of a syntax error is the line of the offending token" has no statement here
-   beyond line_is_start_line for the tokens themselves; it is checked on the implementation by the error-line
-   family of the correspondence run. *)
+(* ---------------------------------------------------------------- error lines
+   Syn/ParsePos.v is the parser model of Syn/Parse.v, function by function, on tokens that carry an annotation; its
+   error result carries the annotation of the token parser2.go builds the error from - always the token the last
+   tokenizer.Next() returned (t.Errorf, unexpected(.., t), found.Errorf, t.EnhanceErrorf), or the pseudo token
+   TokenEof = Token{tEof, "EOF", -1} behind the end of the stream (QErr None: Error() prints no line).
+     parse_pos pc ids ts     the annotation is the line: what Parser.Parse reports for the token stream ts
+     parse_idx pc ids tks    the annotation is the position in the stream: WHICH token the error is built from
+   The two are tied by naturality (the parser never looks at the annotation). *)
+
+(* forgetting the position gives the parser model of C03 / C04: the same outcome kind, the same AST *)
+Theorem C15_parse_pos_erasure : forall (pc : P2.Syn.Parse.pcfg) (ids : P2.Syn.Parse.idents) (ts : list token),
+  P2.Syn.ParsePos.erase (P2.Syn.ParsePos.parse_pos pc ids ts) = P2.Syn.Parse.parse_tokens pc ids ts.
+Proof. exact P2.Syn.ParsePosProofs.parse_pos_erase. Qed.
+
+(* the position reported by the position instance is a position of the stream *)
+Theorem C15_error_position_in_range : forall (pc : P2.Syn.Parse.pcfg) (ids : P2.Syn.Parse.idents) (tks : list P2.Syn.Parse.tk) i,
+  P2.Syn.ParsePos.parse_idx pc ids tks = P2.Syn.ParsePos.QErr (Some i) -> (i < length tks)%nat.
+Proof. exact P2.Syn.ParsePosProofs.parse_idx_in_range. Qed.
+
+(* for every parser configuration, identifier chain and token stream with lines: when parsing fails with line L, L is
+   the line of the token of the stream at the position the position instance reports - a position that depends on the
+   types and images of the tokens only *)
+Theorem C15_error_line_is_token_line : forall (pc : P2.Syn.Parse.pcfg) (ids : P2.Syn.Parse.idents) (ts : list token) L,
+  P2.Syn.ParsePos.parse_pos pc ids ts = P2.Syn.ParsePos.QErr (Some L) ->
+  exists i t, P2.Syn.ParsePos.parse_idx pc ids (map P2.Syn.Parse.untok ts) = P2.Syn.ParsePos.QErr (Some i)
+              /\ nth_error ts i = Some t /\ tline t = L.
+Proof. exact P2.Syn.ParsePosProofs.error_line_is_token_line_lemma. Qed.
+
+(* conversely: an error at token number i reports the line of token number i, whatever the lines are *)
+Theorem C15_error_at_token_reports_its_line : forall (pc : P2.Syn.Parse.pcfg) (ids : P2.Syn.Parse.idents) (ts : list token) i,
+  P2.Syn.ParsePos.parse_idx pc ids (map P2.Syn.Parse.untok ts) = P2.Syn.ParsePos.QErr (Some i) ->
+  exists t, nth_error ts i = Some t /\ P2.Syn.ParsePos.parse_pos pc ids ts = P2.Syn.ParsePos.QErr (Some (tline t)).
+Proof. exact P2.Syn.ParsePosProofs.error_at_token_reports_its_line. Qed.
+
+(* an error built from TokenEof (the input ends too early) carries no line; whether that happens depends on the types
+   and images of the tokens only *)
+Theorem C15_error_at_eof_has_no_line : forall (pc : P2.Syn.Parse.pcfg) (ids : P2.Syn.Parse.idents) (ts : list token),
+  P2.Syn.ParsePos.parse_pos pc ids ts = P2.Syn.ParsePos.QErr None
+  <-> P2.Syn.ParsePos.parse_idx pc ids (map P2.Syn.Parse.untok ts) = P2.Syn.ParsePos.QErr None.
+Proof. exact P2.Syn.ParsePosProofs.error_at_eof_has_no_line. Qed.
+
+(* from TEXT: in a well-formed layout, if the offending token (number i of the lexemes' tokens) belongs to the lexeme w,
+   the line reported is 1 + the number of LF in the text in front of w - LF inside block comments and behind line
+   comments included; CR does not count (token.go increments the line on LF only, so CRLF counts once) *)
+Theorem C15_error_line_layout :
+  forall (tc : tcfg) (pc : P2.Syn.Parse.pcfg) (ids : P2.Syn.Parse.idents) pre w toks post i,
+  ops_ok tc -> wf_layout tc tInvalid false (pre ++ ILex w toks :: post) ->
+  P2.Syn.ParsePos.parse_idx pc ids (lexeme_tokens (pre ++ ILex w toks :: post)) = P2.Syn.ParsePos.QErr (Some i) ->
+  (length (lexeme_tokens pre) <= i < length (lexeme_tokens pre) + length toks)%nat ->
+  P2.Syn.ParsePos.parse_pos pc ids (tokenize tc (layout_text (pre ++ ILex w toks :: post)))
+  = P2.Syn.ParsePos.QErr (Some (1 + count_lf (layout_text pre))).
+Proof. exact P2.Syn.TextErrLine.error_line_layout_lemma. Qed.
+
+(* ... and every line reported for a well-formed layout arises that way *)
+Theorem C15_error_line_layout_exists :
+  forall (tc : tcfg) (pc : P2.Syn.Parse.pcfg) (ids : P2.Syn.Parse.idents) items L,
+  ops_ok tc -> wf_layout tc tInvalid false items ->
+  P2.Syn.ParsePos.parse_pos pc ids (tokenize tc (layout_text items)) = P2.Syn.ParsePos.QErr (Some L) ->
+  exists pre w toks post i, items = pre ++ ILex w toks :: post
+    /\ P2.Syn.ParsePos.parse_idx pc ids (lexeme_tokens items) = P2.Syn.ParsePos.QErr (Some i)
+    /\ (length (lexeme_tokens pre) <= i < length (lexeme_tokens pre) + length toks)%nat
+    /\ L = 1 + count_lf (layout_text pre).
+Proof. exact P2.Syn.TextErrLine.error_line_layout_exists_lemma. Qed.
+
+(* two well-formed layouts of the same lexemes: the same outcome and AST, an error at the SAME token (one run of the
+   position instance on the lexemes), each text reporting the line that token has in it *)
+Theorem C15_error_token_layout_invariant :
+  forall (tc : tcfg) (pc : P2.Syn.Parse.pcfg) (ids : P2.Syn.Parse.idents) items items',
+  ops_ok tc -> wf_layout tc tInvalid false items -> wf_layout tc tInvalid false items' ->
+  lexeme_tokens items = lexeme_tokens items' ->
+  P2.Syn.ParsePos.parse_pos pc ids (tokenize tc (layout_text items))
+    = P2.Syn.ParsePosProofs.qmap nat N (P2.Syn.ParsePosProofs.line_at (tokenize tc (layout_text items)))
+        (P2.Syn.ParsePos.parse_idx pc ids (lexeme_tokens items))
+  /\ P2.Syn.ParsePos.parse_pos pc ids (tokenize tc (layout_text items'))
+    = P2.Syn.ParsePosProofs.qmap nat N (P2.Syn.ParsePosProofs.line_at (tokenize tc (layout_text items')))
+        (P2.Syn.ParsePos.parse_idx pc ids (lexeme_tokens items)).
+Proof. exact P2.Syn.TextErrLine.error_token_layout_invariant_lemma. Qed.
 
 (* ---------------------------------------------------------------- non-vacuity *)
 (* a configuration with comments and comfort mode; letters a-z, digits 0-9 *)
@@ -282,6 +355,36 @@ Example quoted_keyword_binding_computed :
   = P2.Sem.Syntax.Ok (P2.Sem.Syntax.VInt 7).
 Proof. vm_compute. reflexivity. Qed.
 
+(* error lines, non-vacuity: the layout itemsE (x, block comment with LF, 12, blank, line comment, -, "s\n") under a
+   parser configuration without a string handler: the string token (number 4, the 6th item, on line 3) is the offending
+   token; the hypotheses of C15_error_line_layout hold and the theorem gives line 3; the executable models compute the same *)
+Definition pcfgE : P2.Syn.Parse.pcfg := P2.Syn.Parse.mkPcfg [[45]; [42]] [] (Some (fun s => Some s)) None.
+Definition idsE : P2.Syn.Parse.idents := [P2.Syn.Parse.SMap []].
+Definition preE : list item := firstn 5 itemsE.
+
+Example error_position_computed :
+  P2.Syn.ParsePos.parse_idx pcfgE idsE (lexeme_tokens itemsE) = P2.Syn.ParsePos.QErr (Some 4%nat).
+Proof. vm_compute. reflexivity. Qed.
+
+Example error_line_by_theorem :
+  P2.Syn.ParsePos.parse_pos pcfgE idsE (tokenize cfgE (layout_text itemsE)) = P2.Syn.ParsePos.QErr (Some 3).
+Proof.
+  exact (C15_error_line_layout cfgE pcfgE idsE preE (string_literal [115; 10]) [(tString, [115; 10])]
+           [ISep [SLineE [42; 47]]] 4%nat cfgE_ops_ok itemsE_wf error_position_computed
+           (conj (le_n 4) (le_n 5))).
+Qed.
+
+Example error_line_computed :
+  P2.Syn.ParsePos.parse_pos pcfgE idsE (tokenize cfgE (layout_text itemsE)) = P2.Syn.ParsePos.QErr (Some 3).
+Proof. vm_compute. reflexivity. Qed.
+
+(* the input ends too early ( x - ): the error is built from TokenEof and carries no line;
+   a stray token behind a complete expression ( x LF LF ) ): line 3 *)
+Example error_at_eof_computed :
+  P2.Syn.ParsePos.parse_pos pcfgE idsE (tokenize cfgE [120; 10; 45]) = P2.Syn.ParsePos.QErr None
+  /\ P2.Syn.ParsePos.parse_pos pcfgE idsE (tokenize cfgE [120; 10; 10; 41]) = P2.Syn.ParsePos.QErr (Some 3).
+Proof. split; vm_compute; reflexivity. Qed.
+
 Print Assumptions tokenize_total.
 Print Assumptions layout_tokens_and_lines.
 Print Assumptions layout_invariance.
@@ -309,3 +412,11 @@ Print Assumptions C15_layout_ast_invariant.
 Print Assumptions C15_layout_meaning_invariant.
 Print Assumptions C15_string_literal_value.
 Print Assumptions C15_quoted_ident_denotes_content.
+Print Assumptions C15_parse_pos_erasure.
+Print Assumptions C15_error_position_in_range.
+Print Assumptions C15_error_line_is_token_line.
+Print Assumptions C15_error_at_token_reports_its_line.
+Print Assumptions C15_error_at_eof_has_no_line.
+Print Assumptions C15_error_line_layout.
+Print Assumptions C15_error_line_layout_exists.
+Print Assumptions C15_error_token_layout_invariant.
